@@ -585,6 +585,9 @@ class NEB:
         logger.info("Interpolating")
 
         assert len(self.images) > 1
+        if isinstance(max_delta, Distance):
+            max_delta = float(max_delta.to("Å"))
+
         _list = []
 
         for i, left_image in enumerate(self.images[:-1]):
